@@ -212,19 +212,17 @@ class Grid(col.MutableSequence):
             raise TypeError('value must be a dict')
         for val in value.values():
             self._detect_or_validate(val)
-        if "id" in self._row[index]:
-            self._index.pop(self._row[index]['id'], None)
         self._row[index] = value
-        if "id" in value:
-            self._index[str(value["id"])] = value
+        # Rebuild the id index: the replaced row's entry must go (unless the
+        # same row is still present elsewhere) and the new one must appear.
+        self.reindex()
 
     def __delitem__(self, index):
         '''
         Delete the row at index.
         '''
-        if "id" in self._row[index]:
-            self._index.pop(self._row[index]['id'], None)
         del self._row[index]
+        self.reindex()
 
     def insert(self, index, value):
         '''
@@ -253,9 +251,7 @@ class Grid(col.MutableSequence):
     def extend(self, values):
         super(Grid, self).extend(values)  # Python 2 compatible :-(
         # super().extend(values)  # Python 3+ :-)
-        for item in self._row:
-            if "id" in item:
-                self._index[str(item["id"])] = item
+        self.reindex()
 
     def filter(self, filter, limit=0):
         '''
